@@ -75,6 +75,17 @@ def parallel_map(mod, cases, workers=None, chunksize=None):
     if chunksize is None:
         chunksize = getattr(mod, "CHUNK", None) or max(1, min(16, len(items) // (workers * 32) or 1))
     with ctx.Pool(workers) as pool:
+        if os.environ.get("VERIF_STOP_FIRST"):
+            # tooling only (tools/seed_eval.py): stop at the first new failure; the run is then NOT a
+            # coverage statement and writes no evidence
+            known = {f["sig"] for f in load_known().get("findings", [])}
+            out = []
+            for r in pool.imap_unordered(_worker, items, chunksize=chunksize):
+                out.append(r)
+                if any(fl["sig"] not in known for fl in r.get("failures", [])):
+                    pool.terminate()
+                    break
+            return out
         return pool.map(_worker, items, chunksize=chunksize)
 
 
@@ -214,7 +225,8 @@ def main(mod, argv=None):
         "violations": len(new),
         "technique": getattr(mod, "TECHNIQUE", ""),
     }
-    write_evidence(pid, doc)
+    if REPO == "/repo" and not os.environ.get("VERIF_STOP_FIRST"):
+        write_evidence(pid, doc)  # evidence describes /repo only, never a scratch tree
 
     summ = {k: v for k, v in cov.items() if isinstance(v, (int, float, bool))}
     print(f"[{pid}] tier={args.tier} seed={seed} cases={len(cases)} wall={wall:.1f}s {summ}")
